@@ -548,11 +548,11 @@ def r5_link(program, rep):
 def check(program, rep):
     program.module(MC)
     folder = Folder(program)
-    sites, ffl = r1_order(program, rep)
-    r2_blocks(program, folder, rep, sites, ffl)
-    r3_ids(program, folder, rep)
-    r4_retry(program, rep)
-    r5_link(program, rep)
+    sites, ffl = rep.guard("C09-R1", r1_order, program, rep) or (None, None)
+    rep.guard("C09-R2", r2_blocks, program, folder, rep, sites, ffl)
+    rep.guard("C09-R3", r3_ids, program, folder, rep)
+    rep.guard("C09-R4", r4_retry, program, rep)
+    rep.guard("C09-R5", r5_link, program, rep)
     return finish(rep, program, EXPLANATION, NOT_DECIDED,
                   trusted=["documented flood-fill command word layouts",
                            "LININV engine axioms"])
